@@ -77,7 +77,9 @@ func c18Eval(t tb, dir string, c c18Case) {
 	var r sut.Result
 	if c.Binary {
 		ldv := c.LdPrefix + c.B
-		if c.LdExtra != "" {
+		if c.LdExtra == "module" {
+			ldv = "module:" + c.B // version from the build info (go install ...@vB), no linker flag
+		} else if c.LdExtra != "" {
 			ldv += "|" + c.LdExtra
 		}
 		bin, err := sut.BuildBinary(ev.RepoDir(), filepath.Join(ev.ScratchDir(), "bin"), ldv)
@@ -265,7 +267,8 @@ func TestC18(t *testing.T) {
 	// (4) through real binaries linked with -X main.version=<B> (covers main.go: v-prefix stripping)
 	type ld struct{ b, prefix, extra string }
 	lds := []ld{{"0.4.2", "v", ""}, {"1.3.0", "v", "dirty"}, {"2.0.7-rc.1", "v", "clean"}, {"0.0.0", "", ""}, {"3.1.0+build5", "v", ""}, {"dev-main", "", "dirty"},
-		{"3.1.0+build5", "v", "dirty"}, {"0.3.1+exp.sha.5114f85", "", "dirty"}, {"1.3.0-rc.1", "", "dirty"}, {"1.3.0+b", "v", "clean"}}
+		{"3.1.0+build5", "v", "dirty"}, {"0.3.1+exp.sha.5114f85", "", "dirty"}, {"1.3.0-rc.1", "", "dirty"}, {"1.3.0+b", "v", "clean"},
+		{"1.2.3", "", "module"}, {"0.3.1", "", "module"}, {"1.10.0-rc.1", "", "module"}}
 	if ev.Thorough() {
 		for i, b := range grid {
 			p := "v"
